@@ -174,6 +174,11 @@ def generate(tier):
                        '        r.ck(c == *a, 0, &|| format!("value #{}: the clone {:?} differs from the source {:?}", i, c, a));\n'
                        '        for (j, (b, _)) in vs.iter().enumerate() {\n            let mut d = a.clone();\n            d.clone_from(b);\n'
                        '            r.ck(d == *b, 1, &|| format!("values #{} <- #{}: clone_from gives {:?}, expected {:?}", i, j, d, b));\n        }\n    }\n')
+    cases += zoo_cases('C07|zm', 'Clone', 'Debug, PartialEq', 'Debug, PartialEq, Clone',
+                       '    for (i, (a, _)) in vs.iter().enumerate() {\n        let c = a.clone();\n'
+                       '        r.ck(c == *a, 0, &|| format!("value #{}: the clone {:?} differs from the source {:?}", i, c, a));\n'
+                       '        for (j, (b, _)) in vs.iter().enumerate() {\n            let mut d = a.clone();\n            d.clone_from(b);\n'
+                       '            r.ck(d == *b, 1, &|| format!("values #{} <- #{}: clone_from gives {:?}, expected {:?}", i, j, d, b));\n        }\n    }\n', z_attr='Clone(method(zoo_m_clone))')
     from .common import rawify
     for c in [x for x in cases if x.key.startswith('C07|C|s:n2|') or x.key.startswith('C07|C|e:n2,n1|') or x.key.startswith('C07|CC|e:n1,n2|')]:
         r_ = rawify(c)
